@@ -71,6 +71,8 @@ type Sched struct {
 	preemptions int
 	mutexes     map[*value]*mutexState
 	wgs         map[*value]*wgState
+	selectors   []*G // goroutines blocked in a select, woken by any channel event
+	quiet       int  // > 0: channel operations are part of a select (no extra scheduling point)
 	nchan       int
 	engineErr   string
 }
@@ -147,6 +149,9 @@ func (s *Sched) describeBlocked() string {
 
 // visible is called by the running goroutine before each visible operation.
 func (s *Sched) visible(g *G) {
+	if s.quiet > 0 {
+		return
+	}
 	switch s.mode {
 	case schedLazy:
 		return
@@ -302,9 +307,11 @@ func (s *Sched) send(g *G, ch *chanObj, v value) {
 	}
 	if len(ch.buf) < ch.cap {
 		ch.buf = append(ch.buf, v)
+		s.wakeSelectors()
 		return
 	}
 	ch.sendq = append(ch.sendq, &waiter{g: g, val: v})
+	s.wakeSelectors()
 	g.sendClosed = false
 	s.block(g, fmt.Sprintf("send on chan#%d", ch.id))
 	if g.sendClosed {
@@ -321,6 +328,7 @@ func (s *Sched) recv(g *G, ch *chanObj, elem types.Type) (value, bool) {
 	if len(ch.buf) > 0 {
 		v := ch.buf[0]
 		ch.buf = ch.buf[1:]
+		s.wakeSelectors()
 		if len(ch.sendq) > 0 {
 			w := ch.sendq[0]
 			ch.sendq = ch.sendq[1:]
@@ -339,6 +347,7 @@ func (s *Sched) recv(g *G, ch *chanObj, elem types.Type) (value, bool) {
 		return zero(elem), false
 	}
 	ch.recvq = append(ch.recvq, &waiter{g: g})
+	s.wakeSelectors()
 	s.block(g, fmt.Sprintf("receive on chan#%d", ch.id))
 	return g.recvVal, g.recvOK
 }
@@ -353,6 +362,7 @@ func (s *Sched) closeChan(g *G, ch *chanObj) {
 		panic(targetPanic{v: rtErr("close of closed channel")})
 	}
 	ch.closed = true
+	s.wakeSelectors()
 	for _, w := range ch.recvq {
 		w.g.recvVal, w.g.recvOK = zero(ch.elemT), false
 		w.g.state = gRunnable
@@ -363,6 +373,67 @@ func (s *Sched) closeChan(g *G, ch *chanObj) {
 		w.g.state = gRunnable
 	}
 	ch.sendq = nil
+}
+
+// ---------------------------------------------------------------- select
+
+type selCase struct {
+	send bool
+	ch   *chanObj
+	val  value
+	elem types.Type
+}
+
+func (s *Sched) wakeSelectors() {
+	for _, g := range s.selectors {
+		if g.state == gBlocked {
+			g.state = gRunnable
+		}
+	}
+	s.selectors = nil
+}
+
+func (c selCase) ready() bool {
+	ch := c.ch
+	if ch == nil {
+		return false
+	}
+	if c.send {
+		return ch.closed || len(ch.recvq) > 0 || len(ch.buf) < ch.cap
+	}
+	return len(ch.buf) > 0 || len(ch.sendq) > 0 || ch.closed
+}
+
+// selectStmt runs a select statement: index of the chosen case (-1: default),
+// the received value and ok flag for a receive case.  Go chooses among the
+// ready cases pseudo-randomly: a nondeterministic choice here.
+func (s *Sched) selectStmt(g *G, cases []selCase, blocking bool) (int, value, bool) {
+	s.visible(g)
+	for {
+		var ready []int
+		for i, c := range cases {
+			if c.ready() {
+				ready = append(ready, i)
+			}
+		}
+		if len(ready) > 0 {
+			k := ready[s.m.choose(len(ready))]
+			c := cases[k]
+			s.quiet++
+			defer func() { s.quiet-- }()
+			if c.send {
+				s.send(g, c.ch, c.val)
+				return k, nil, false
+			}
+			v, ok := s.recv(g, c.ch, c.elem)
+			return k, v, ok
+		}
+		if !blocking {
+			return -1, nil, false
+		}
+		s.selectors = append(s.selectors, g)
+		s.block(g, "select")
+	}
 }
 
 // ---------------------------------------------------------------- mutexes
